@@ -1,25 +1,23 @@
-(** C20 — a chain once reported fully valid can be activated again. Closed, instantiated machine.
+(** C20 — a chain once reported fully valid can be activated again. Closed, instantiated machine
+    (Pop/SmDefs.v, as-coded model; every assert of the code is an explicit Abort outcome).
 
-    PROVED:
-      * C20_full_validity_truthful: in EVERY reachable state (any history of connectBlock / setState / comparePopScore
-        with any scorer, any tree, payloads, failing positions) every block at level CAN_BE_APPLIED replays successfully
-        ALONE - the bodies of root..b executed from the bootstrap state all succeed. (Invariant over all block-level
-        steps, also inside comparisons; key step: the level is raised only when the as-coded counter check holds, the
-        counting argument then shows that exactly root..parent is applied, so P is a permutation of the parent's replay,
-        and success of a command group does not depend on the order of P.)
-      * the level logic of applyBlock for ALL states: the fully-valid level is raised only on a fully valid parent and
-        only when the applied-block counter says nothing but root..parent is applied
-        (C20_full_level_guard); a block applied next to another chain or on a MAYBE parent is never
-        reported as fully valid by that application (C20_maybe_level_never_reported_full);
+    PROVED, for EVERY reachable state (any history of connectBlock / setState / comparePopScore with any scorer, any
+    tree, payload assignment, failing position):
+      * C20_reactivation: setState to a block that is at level CAN_BE_APPLIED and not invalidated returns TRUE - the
+        walk (fork search, unapply to the fork, apply the branch) hits no assert and no command group fails;
+      * C20_full_validity_truthful: every block at level CAN_BE_APPLIED replays successfully ALONE (the bodies of
+        root..b executed from the bootstrap state all succeed);
+      * C20_chain_full: every block of the active chain root..tip is applied, not failed and at CAN_BE_APPLIED;
+      * the level logic of applyBlock for all states: the fully-valid level is raised only on a fully valid parent and
+        only when the applied-block counter says nothing but root..parent is applied (C20_full_level_guard); a block
+        applied next to another chain or on a MAYBE parent is never reported fully valid by that application
+        (C20_maybe_level_never_reported_full);
       * the unapply discipline (applied, parent applied, no applied child) (C20_unapply_order).
-    GAP (hence _partial; full statement):
-      reactivation : reachable s -> level b = CAN_BE_APPLIED -> b not invalidated -> setState s b = Ok (_, true).
-      Proved: a successful setState ends on the fully valid target (C20_reactivation_partial) and the replay of root..b
-      succeeds (truthfulness); not proved: that the walk of setState itself cannot fail or hit an assert (needs
-      FAILED_CHILD / level coherence of the tree and Abort-freedom). Checked on the implementation by the
-      re-activation oracle, the apply/unapply trace oracle and the exact comparison of validity levels with the model. *)
+    No _partial theorem is left for this property. (Finalization and altchain invalidate/revalidate are outside the
+    model: the premise "not invalidated" is the FAILED_* flags of the block; they are exercised on the implementation
+    by the re-activation oracle.) *)
 From Coq Require Import List ZArith NArith Bool.
-From VB Require Import Pop.SmDefs Pop.SmProofs Pop.SmWf Pop.SmTruth Pop.SmCmp Pop.SmAll.
+From VB Require Import Pop.SmDefs Pop.SmProofs Pop.SmWf Pop.SmTruth Pop.SmCmp Pop.SmAll Pop.SmCoh Pop.SmFull Pop.SmReact.
 Local Open Scope Z_scope.
 
 Theorem C20_full_level_guard :
@@ -51,13 +49,18 @@ Theorem C20_unapply_order :
 Proof. exact unapply_order. Qed.
 Print Assumptions C20_unapply_order.
 
-Theorem C20_reactivation_partial :
-  forall base s to s',
-    canon base s -> c_setState s to = Ok (s', true) ->
-    tip _ _ s' = to /\ napp _ _ s' = chain_count _ _ s' to /\
-    exists b, find ccmd (blocks _ _ s') to = Some b /\ valid_upto _ b L_FULL = true.
-Proof. exact setState_true_outcome. Qed.
-Print Assumptions C20_reactivation_partial.
+Theorem C20_reactivation :
+  forall base s to bto,
+    reachable base s -> find ccmd (blocks _ _ s) to = Some bto -> valid_upto _ bto L_FULL = true ->
+    exists s', c_setState s to = Ok (s', true).
+Proof. exact reactivation. Qed.
+Print Assumptions C20_reactivation.
+
+Theorem C20_chain_full :
+  forall base s, reachable base s ->
+    forall j, In j (chain s) -> exists b, find ccmd (blocks _ _ s) j = Some b /\ b_act _ b = true /\ valid_upto _ b L_FULL = true.
+Proof. exact chain_full. Qed.
+Print Assumptions C20_chain_full.
 
 Theorem C20_full_validity_truthful :
   forall base s, reachable base s ->
